@@ -6,6 +6,8 @@ PROP = dict(
     lean_modules=["MM.Props.C35"],
     theorems=[
         "MM.C35.C35_covers",
+        "MM.C35.C35_name_screen",
+        "MM.C35.C35_allowlist_sound",
         "MM.C35.C35_uniform",
         "MM.C35.C35_schema_nonvacuous",
         "MM.C35.C35_secret_slots",
@@ -34,6 +36,14 @@ PROP = dict(
         "private_key/signing_private_key, or key/key_pem under a tls section; by yaml name or Go field name)",
     ],
     assumptions=[
+        "scope = the redacted rendering, i.e. Config.String()/Redacted() (their only non-test callers are in internal/config itself). Other "
+        "serialisations of a Config are unredacted BY DESIGN and outside the statement: wizard.writeConfig / embedConfigToBinary / "
+        "embedConfigToTargetBinary yaml.Marshal the full config because they ARE the configuration storage; the wizard prints a freshly "
+        "generated management private key to the operator once; StringUnsafe() is documented as unsafe; no HTTP/dashboard endpoint returns "
+        "the configuration (node info exposes forward routing keys/targets only). The current list of yaml.Marshal call sites outside "
+        "internal/config is recorded in the evidence (coverage.c35_other_config_serialisers) on every run",
+        "observation: http.token_hash (bcrypt hash of the API bearer token) is printed by String(); it is not among the secrets the "
+        "property names and is carried on the reviewed allow-list of C35_name_screen",
         "the YAML round trip and the marshaller are parameters of the theorems (no assumption on them) — except C35_redacted_secret_slots "
         "(round trip faithful or failing)",
         "'original unchanged': C35_original_unchanged is about a memory model with aliasing (struct by value, lists by reference); "
@@ -58,6 +68,22 @@ def before_diff(c):
     import os
     import shutil
     import vlib
+
+    # informational: where else a config is serialised (not an obligation — see assumptions)
+    import re
+    sites = []
+    for top in ("cmd", "internal"):
+        for dp, _dn, fns in os.walk(os.path.join(vlib.REPO, top)):
+            for fn in fns:
+                if fn.endswith(".go") and not fn.endswith("_test.go") and not fn.startswith("zz_verif"):
+                    path = os.path.join(dp, fn)
+                    rel = os.path.relpath(path, vlib.REPO)
+                    if rel == "internal/config/config.go":
+                        continue
+                    for n, line in enumerate(open(path, errors="replace"), 1):
+                        if re.search(r"yaml\.Marshal\(\s*&?\w*[cC]fg\w*\)|yaml\.Marshal\(\s*&?\w*[cC]onfig\w*\)|\.StringUnsafe\(\)|\.Redacted\(\)", line):
+                            sites.append("%s:%d" % (rel, n))
+    c.p.setdefault("extra_coverage", {})["c35_other_config_serialisers"] = sorted(sites)
 
     if getattr(c, "lake_ok", True) or not c.harness or "c35" in c.drivers:
         return
